@@ -147,6 +147,7 @@ func (fr *Frame) callUnknownFunc(fv Val, args []Val, st *State, pos token.Pos, s
 	fx.noteAssumption("callbacks invoked through function values are pure, deterministic and return normally")
 	res := sig.Results()
 	if res.Len() == 0 {
+		fx.logCallback(st, args, nil)
 		return nil
 	}
 	var flat []T
@@ -170,7 +171,41 @@ func (fr *Frame) callUnknownFunc(fv Val, args []Val, st *State, pos token.Pos, s
 		out.ts = append(out.ts, fx.define("cb", so, app(name, flat...)))
 	}
 	fx.assume(st.guard, typeInvariant(out))
+	fx.logCallback(st, args, &out)
 	return &out
+}
+
+// logCallback appends a call through an unknown function value to the ghost
+// sequence log: cbcalls() so far, cbarg(k, i) and cbres(k) of the k-th call.
+func (fx *FnCtx) logCallback(st *State, args []Val, res *Val) {
+	intSh := shapeOf(types.Typ[types.Int])
+	cnt := fx.ghostCell(st, "cbcalls", intSh, mkInt(intSh, "0"))
+	k := st.cells[cnt].t()
+	for i, a := range args {
+		if a.ptr != nil || len(a.fns) > 0 {
+			continue
+		}
+		ash := &Shape{kind: KArr, elem: a.sh, n: -1, key: "[cb]" + a.sh.key}
+		c := fx.ghostCell(st, fmt.Sprintf("cbarg:%d", i), ash, freshVal(fx.decls, ash, "cbargs0"))
+		cur := st.cells[c]
+		nv := cur.arraySet(k, a)
+		so := ash.sorts()
+		for j := range nv.ts {
+			nv.ts[j] = fx.define("cbargs", so[j], nv.ts[j])
+		}
+		st.cells[c] = nv
+	}
+	if res != nil {
+		ash := &Shape{kind: KArr, elem: res.sh, n: -1, key: "[cb]" + res.sh.key}
+		c := fx.ghostCell(st, "cbres", ash, freshVal(fx.decls, ash, "cbres0"))
+		nv := st.cells[c].arraySet(k, *res)
+		so := ash.sorts()
+		for j := range nv.ts {
+			nv.ts[j] = fx.define("cbress", so[j], nv.ts[j])
+		}
+		st.cells[c] = nv
+	}
+	st.cells[cnt] = mkInt(intSh, fx.define("ncb", sInt, add(k, "1")))
 }
 
 func (fr *Frame) callFunction(callee *ssa.Function, args []Val, bindings []Val, st *State, pos token.Pos, instr ssa.Instruction) *Val {
